@@ -1,6 +1,9 @@
 pub mod asm;
 pub mod c09;
 pub mod c10;
+pub mod c16;
+pub mod c19;
+pub mod c20;
 pub mod corpus;
 pub mod infra;
 pub mod obs;
@@ -10,6 +13,6 @@ pub mod util;
 use infra::Check;
 
 pub fn registry() -> Vec<Box<dyn Check>> {
-    vec![Box::new(c09::C09), Box::new(c10::C10)]
+    vec![Box::new(c09::C09), Box::new(c10::C10), Box::new(c16::C16), Box::new(c19::C19), Box::new(c20::C20)]
 }
 pub mod u256_selfcheck;
